@@ -485,3 +485,27 @@ static uint64_t ctl_xxh(const void* data, size_t length, uint64_t seed, int tail
 }
 uint64_t xxh_formula_good(const void* data, size_t length, uint64_t seed) { return ctl_xxh(data, length, seed, 27); }
 uint64_t xxh_formula_bad(const void* data, size_t length, uint64_t seed) { return ctl_xxh(data, length, seed, 28); }
+
+/* ---- R35 length-extension bytes (rules/lenext.py) */
+size_t lenext_bad(uint8_t* op, size_t n) {
+    uint8_t* s = op; size_t rem = n;
+    while (rem > 255) { *op++ = 255; rem -= 255; }
+    *op++ = (uint8_t)rem;
+    return (size_t)(op - s);
+}
+size_t lenext_good(uint8_t* op, size_t n) {
+    uint8_t* s = op; size_t rem = n;
+    for (; !(rem < 255); rem -= 255) { *op++ = 255; }
+    *op++ = (uint8_t)rem;
+    return (size_t)(op - s);
+}
+size_t lenext_read_bad(const uint8_t* ip) {
+    size_t len = 15; uint8_t s;
+    do { s = *ip++; len += s; } while (s >= 254);
+    return len;
+}
+size_t lenext_read_good(const uint8_t* ip) {
+    size_t len = 15; uint8_t s;
+    do { s = *ip++; len += s; } while (255 == s);
+    return len;
+}
